@@ -22,8 +22,8 @@ import (
 type c13Case struct {
 	Loop    string   `json:"loop,omitempty"` // jr | jp | nops | ldir | otir | djnz | jpix | ldra | ldirix | body (non-terminating), or "" with Prog
 	Prog    *program `json:"program,omitempty"`
-	Body    []int    `json:"body,omitempty"` // loop "body": straight-line bytes, followed by JP start
-	R       int      `json:"r"`              // initial refresh register
+	Body    []int    `json:"body,omitempty"`    // loop "body": straight-line bytes, followed by JP start
+	R       int      `json:"r"`                 // initial refresh register
 	Pending string   `json:"pending,omitempty"` // "int": a maskable request stays pending and masked (IFF1 = 0) for the whole run
 	PC      uint16   `json:"pc"`
 	Instant string   `json:"instant"` // pre | hook | timer | timeout | never
